@@ -37,6 +37,9 @@ pub struct RunCfg {
     pub stream: bool,
     /// number of times the same executor is executed (fresh context each time)
     pub repeat: usize,
+    /// a program without I/O that leaves every cell 0 and the pointer where it was, run first on the
+    /// same context by the in-place interpreter: the main program then meets a used, non-empty tape
+    pub pre: Option<String>,
 }
 
 impl RunCfg {
@@ -52,6 +55,7 @@ impl RunCfg {
             in_fail: opt("inFail"),
             in_absent: v["inAbsent"].as_u64().unwrap_or(0) == 1,
             out_absent: v["outAbsent"].as_u64().unwrap_or(0) == 1,
+            pre: v.get("pre").and_then(|p| p.as_str()).map(|p| p.to_string()),
             pregrow: v.get("pregrow").and_then(|p| p.as_array()).map(|p| {
                 (p[0].as_i64().unwrap() as isize, p[1].as_i64().unwrap() as isize)
             }),
@@ -132,6 +136,11 @@ fn exec_once<C: CellType, X: Executable<C>>(
         let mut cxt = Context::<C>::new(reader, writer);
         let r = catch_unwind(AssertUnwindSafe(|| {
             galloc::arm(cfg.alloc, cfg.fail_k, cfg.fail_min);
+            if let Some(pre) = &cfg.pre {
+                if let Ok(e) = InplaceInterpreter::<C>::create(pre, 0) {
+                    let _ = e.execute(&mut cxt);
+                }
+            }
             if let Some((lo, hi)) = cfg.pregrow {
                 cxt.memory.make_accessible(lo, hi);
             }
